@@ -125,7 +125,7 @@ def main():
         except Exception:
             pass
     for f in ('patch.diff', 'demo.py', 'notes.md'):
-        if os.path.exists(os.path.join(a.src, f)):
+        if os.path.exists(os.path.join(a.src, f)) and os.path.abspath(a.src) != os.path.abspath(dst):
             shutil.copy(os.path.join(a.src, f), os.path.join(dst, f))
     json.dump(meta, open(os.path.join(dst, 'meta.json'), 'w'), indent=1)
     # restore evidence written against the mutated tree? evidence files are rewritten by the next clean run
